@@ -87,10 +87,21 @@ class Module:
                 cur.clause = (cur.clause + " " + val).strip()
 
 
+def enabled(dirpath):
+    """Only files listed in <dir>/ENABLED are part of the registered checks (work in progress stays out)."""
+    p = os.path.join(dirpath, "ENABLED")
+    if not os.path.exists(p):
+        return None
+    return set(l.strip() for l in open(p) if l.strip() and not l.startswith("#"))
+
+
 def load_modules(prop):
     mods = []
+    en = enabled(KANI_DIR)
     for f in sorted(os.listdir(KANI_DIR)):
         if not f.endswith(".rs"):
+            continue
+        if en is not None and f not in en and not os.environ.get("VERIF_ALL_MODULES"):
             continue
         m = Module(os.path.join(KANI_DIR, f))
         if m.property and any(prop in h.props for h in m.harnesses):
